@@ -4,7 +4,8 @@ C06 driver: one JSON request per line on stdin, one JSON answer per line on stdo
   {"op":"job","backend":B,"mds":[MD..],"uses":[USE..],"c0":n,"gap":n}
       -> {"ok":OBS} | {"err":kind}                      the model's job, observed with the uses' consumers
   {"op":"spec","backend":B,"mds":[..],"uses":[..],"impl":{"rejected":true} | {"body":[..],"class_decl":[..],"book":[..],"includes":[..],"libs":[..]}}
-      -> {"holds":bool,"why":text,"obs":OBS|null,"filters":{..}}   RunSpec on the implementation's text
+      (optional "mode":"exact"|"restricted"|"cover": how the include / library clause is judged, Spec.lean `IncMode`)
+      -> {"holds":bool,"why":text,"obs":OBS|null,"filters":{..}}   RunSpecM mode (exact = RunSpec) on the implementation's text
   {"op":"validate","backend":B,"md":MD}
       -> {"model":"ok"|kind,"spec":{..}|null,"valid":bool,"welltyped":bool,"flag":bool}
   {"op":"subst","line":text,"lit":text} -> {"out":text}   whole-word substitution of `collection_name`
@@ -100,7 +101,7 @@ def jObs (o : Obs) : Json :=
     ("includes", jTs o.includes), ("libs", jTs o.libs)]
 
 /-- which conjunct of `RunSpec` fails (for the replay file) -/
-def explain (b : Backend) (mds : List Md) (uses : List Use) : Outcome → String
+def explain (m : IncMode) (b : Backend) (mds : List Md) (uses : List Use) : Outcome → String
   | .rejected =>
     if decide (Acceptable b mds uses) then "the job was rejected although every declaration is well formed and for this backend and every call has one string argument and names a known collection"
     else ""
@@ -127,8 +128,12 @@ def explain (b : Backend) (mds : List Md) (uses : List Use) : Outcome → String
         | none =>
           if !decide ((o.frags.map (·.var)).Nodup) then s!"two retrievals share one variable: {o.frags.map (fun f => S f.var)}"
           else if !decide (TokenSpec b ds o) then s!"tokens: used {o.frags.map (fun f => S f.tok)}, declared {o.classDecls.map S}, initialised {o.book.map S}"
-          else if !decide (DedupSpec (ds.flatMap (·.1.includes)) o.includes) then s!"include files {o.includes.map S} are not the headers of the used collections {(ds.flatMap (·.1.includes)).map S} once each in order of first use"
-          else if !decide (DedupSpec (ds.flatMap (·.1.libraries)) o.libs) then s!"link libraries {o.libs.map S} are not the libraries of the used collections {(ds.flatMap (·.1.libraries)).map S} once each in order of first use"
+          else if !decide (IncSpec m (ds.flatMap (·.1.includes)) o.includes) then
+            (if m == .cover then s!"the include closure of the rendered main source lacks {((ds.flatMap (·.1.includes)).filter (fun h => !o.includes.contains h)).map S}, needed by the used collections (their headers: {(ds.flatMap (·.1.includes)).map S})"
+             else s!"include files {o.includes.map S} are not the headers of the used collections {(ds.flatMap (·.1.includes)).map S} once each in order of first use")
+          else if !decide (IncSpec m (ds.flatMap (·.1.libraries)) o.libs) then
+            (if m == .cover then s!"the rendered link libraries {o.libs.map S} lack a library of the used collections {(ds.flatMap (·.1.libraries)).map S}"
+             else s!"link libraries {o.libs.map S} are not the libraries of the used collections {(ds.flatMap (·.1.libraries)).map S} once each in order of first use")
           else ""
 
 def jRow (c : CollSpec) : Json :=
@@ -152,6 +157,10 @@ def handle (line : String) : String :=
       else if op == "spec" then
         let (b, mds, uses, _) ← parseJob j
         let impl ← j.getObjVal? "impl"
+        let mode : IncMode := match j.getObjVal? "mode" with
+          | .ok (Json.str "restricted") => .restricted
+          | .ok (Json.str "cover") => .cover
+          | _ => .exact
         let out : Outcome ← (match impl.getObjVal? "rejected" with
           | .ok _ => pure Outcome.rejected
           | .error _ => do
@@ -160,14 +169,14 @@ def handle (line : String) : String :=
             let book ← getTs impl "book"
             let incs ← getTs impl "includes"
             let libs ← getTs impl "libs"
-            pure (Outcome.ok (observeText body cd book incs libs)))
-        let holds := decide (RunSpec b mds uses out)
+            pure (Outcome.ok (if mode == .restricted then observeTextR body cd book incs libs else observeText body cd book incs libs)))
+        let holds := decide (RunSpecM mode b mds uses out)
         let filters := Json.mkObj [
           ("typeClean", decide (∀ p ∈ resolveAll b mds uses, TypeClean p.1)),
           ("cmsIsCollection", decide (∀ md ∈ mds, md.mdType = b.mdType → CmsIsCollection b md)),
           ("nameClean", decide (∀ u ∈ uses, NameClean u.name)),
           ("wellTyped", decide (∀ md ∈ mds, md.WellTyped))]
-        pure (Json.mkObj [("holds", holds), ("why", if holds then "" else explain b mds uses out),
+        pure (Json.mkObj [("holds", holds), ("why", if holds then "" else explain mode b mds uses out),
           ("obs", match out with | .ok o => jObs o | .rejected => Json.null), ("filters", filters)])
       else if op == "validate" then
         let b ← parseBackend j
